@@ -28,7 +28,7 @@ func init() {
 		ID: "C12",
 		Explanation: "Structural necessary conditions of exact text forms: R12.3 every signed add/sub/mul/neg, narrowing integer conversion and float->int conversion in package types is shown to stay " +
 			"inside its type's range by an interval analysis over go/ssa (guard refinement, path-condition case splitting, four relational guard idioms, frozen result ranges for a handful of " +
-			"standard-library calls); a post-hoc test of an already wrapped result is not a guard. The other rules (escape vocabulary, constructor agreement, parse-error discipline, range before UnixMilli, rune-error width, zone, quote unwrapping, sign, code-point digits, leap rule) are described in the manifest. Not decided: that the accepted language is exactly the documented one, calendar arithmetic.",
+			"standard-library calls); a post-hoc test of an already wrapped result is not a guard. The other rules (escape vocabulary, constructor agreement, parse-error discipline, range before UnixMilli, rune-error width, zone, quote unwrapping, sign, code-point digits, leap rule) are described in the manifest. Not decided: that the accepted language is exactly the documented one, calendar arithmetic. R12.14 no general-purpose library parser (time.Parse, time.ParseDuration, strconv.ParseFloat, fmt.Sscan*) is reachable from an exported Parse* function of package types.",
 		Run: runC12,
 	})
 }
@@ -45,6 +45,7 @@ func runC12(p *Prog, r *Report) {
 	prefixBitsVsConstant(p, r, "R12.8-family-dependent-host-test")
 	c12QuoteStripping(p, r, "R12.9-quote-unwrapping")
 	c12SignedParse(p, r, "R12.10-no-plus-sign")
+	c12LaxLibraryParsers(p, r)
 	c12DigitExtractors(p, r, "R12.11-code-point-digits")
 	ownedBytesRule(p, r, "R12.13-owned-bytes", 4, pTypes)
 }
@@ -1083,5 +1084,49 @@ func c12LeapRule(p *Prog, r *Report) {
 	}
 	if n == 0 {
 		r.OK(rule, "no-hand-written-leap-rule", "-", "no function of the value packages computes leap years by hand (dates are validated by normalising through time.Date)")
+	}
+}
+
+// R12.14 — no lax library parser in front of an exact one. The text forms of datetime, duration and decimal are small exact
+// grammars; the standard library's general-purpose readers accept more (time.Parse takes a seconds fraction of any length
+// after the seconds whether or not the layout has one, fmt.Sscan* skips space and stops early, strconv.ParseFloat knows
+// exponents, hex floats, inf and nan, time.ParseDuration has its own unit set). A parser of package types that reaches one
+// of them on a path to success accepts text outside the documented form. Zero instances today; the rule's anchor is the
+// set of exported Parse* functions.
+func c12LaxLibraryParsers(p *Prog, r *Report) {
+	const rule = "R12.14-no-lax-library-parser"
+	lax := map[string]string{
+		"time.Parse": "accepts a fractional second of any length (with '.' or ',') after the seconds even if the layout has none",
+		"time.ParseInLocation": "accepts a fractional second of any length after the seconds even if the layout has none",
+		"time.ParseDuration": "has its own unit vocabulary (ns, us, µs) and fractions",
+		"strconv.ParseFloat": "accepts exponents, hex floats, underscores, inf and nan",
+		"fmt.Sscanf": "skips white space and ignores trailing input", "fmt.Sscan": "skips white space and ignores trailing input", "fmt.Sscanln": "skips white space",
+	}
+	var roots []*ssa.Function
+	for _, fn := range p.Funcs {
+		if fnPkgPath(fn) == pTypes && fn.Parent() == nil && fn.Signature.Recv() == nil && strings.HasPrefix(fn.Name(), "Parse") && token.IsExported(fn.Name()) && len(fn.Blocks) > 0 {
+			roots = append(roots, fn)
+		}
+	}
+	if len(roots) < 3 {
+		r.Anchor(rule, "exported Parse* functions of package types (found "+itoa(len(roots))+")")
+		return
+	}
+	sort.Slice(roots, func(i, j int) bool { return roots[i].String() < roots[j].String() })
+	for _, root := range roots {
+		bad := ""
+		for f := range reachFrom(p, []*ssa.Function{root}) {
+			for _, g := range withAnon(f) {
+				for _, cl := range callsIn(g) {
+					if h := cl.Common().StaticCallee(); h != nil {
+						if why, isLax := lax[stdName(h)]; isLax {
+							bad = stdName(h) + " (" + why + "), called from " + fnShort(g) + " at " + p.pos(cl.Pos())
+						}
+					}
+				}
+			}
+		}
+		r.Check(bad == "", rule, fnQual(root), p.pos(root.Pos()), "reads its text form itself (no general-purpose library parser on the way)",
+			fnShort(root)+" reaches "+bad+": text outside the documented form is accepted (and may be silently truncated), so a value's accepted spellings are no longer exactly the canonical grammar")
 	}
 }
